@@ -114,6 +114,21 @@ class DictDecodeError(Exception):
     pass
 
 
+def read_label(bits, m_len):
+    """(label, bits consumed) of the HmLabel at the start of `bits` for remaining key length m_len"""
+    k = m_len.bit_length()
+    if bits[:1] == '0':
+        n = bits.index('0', 1) - 1
+        p = 1 + n + 1
+        return bits[p:p + n], p + n
+    if bits[:2] == '10':
+        n = int(bits[2:2 + k], 2) if k else 0
+        return bits[2 + k:2 + k + n], 2 + k + n
+    v = bits[2]
+    n = int(bits[3:3 + k], 2) if k else 0
+    return v * n, 3 + k
+
+
 def decode(cell, width, aug_bits=None):
     """-> (leaves {key str: (value bits, refs)}, extras list in the library's order or None, pruned prefixes)
     aug_bits: None (plain Hashmap), a bit width (uint extras) or a callable (bits, pos, refs, ref_pos) -> (extra, new pos, new ref_pos)"""
